@@ -308,12 +308,34 @@ def oracle(case, obs, flag_present, opt_tol):
             if e <= tolc[0] * (1 - slack):
                 bad.append("continued although the residual %.3e was already below the tolerance %.3e" % (e, tolc[0]))
                 break
-    if steps < K:
-        # the true residual agrees with the stopping claim up to the attainable accuracy
-        tr = np.linalg.norm(B - A @ X, axis=0) / safe
-        att = 1e-10 * case.get("kappa", 1.0) * (1 + np.linalg.norm(X0, axis=0) * np.linalg.norm(A, 2))
-        if np.any(tr > 1.5 * tolc + att) and not (flag_present and np.any(X0 != 0)):
-            bad.append("true residual %s above the stopping tolerance %s" % (tr.tolist(), tolc.tolist()))
+    # The stopping clause on the implementation's own output, per column: the true residual of the returned vector against
+    # tol*(1 + ||r0||/||b||), relative to ||b||.  The loop tests the recursively updated residual; it differs from the true
+    # one by rounding only: allowance att = 1e3*eps*kappa*(||A|| ||x|| + ||b||)/||b||, plus 1e-3 relative.
+    anorm2 = float(np.linalg.norm(A, 2))
+    kap = case.get("kappa", 1.0)
+
+    def true_res(Xv):
+        tr_ = np.linalg.norm(B - A @ Xv, axis=0) / safe
+        att_ = 1e3 * 2.2e-16 * kap * (anorm2 * np.linalg.norm(Xv, axis=0) + bn) / safe
+        return tr_, att_
+    spoiled = flag_present and np.any(X0 != 0)
+    # a zero right-hand side with x0 != 0 is iterated on internally (from x0/1e-40) but returned as exactly 0: its loop state is
+    # not observable in the output, so the per-column clauses cannot be evaluated for such a batch
+    hidden = any(bn[j] == 0 and np.any(X0[:, j] != 0) for j in range(nc)) or not np.any(bn > 0)
+    if steps < K and not spoiled and not hidden:
+        tr, att = true_res(X)
+        over = [j for j in range(nc) if bn[j] > 0 and tr[j] > tolc[j] * (1 + 1e-3) + att[j]]
+        if over:
+            bad.append("stopped after %d < max_iters=%d steps although column(s) %s are above their threshold: residual/||b|| %s vs tol*(1+||r0||/||b||) %s"
+                       % (steps, K, over, [float(tr[j]) for j in over], [float(tolc[j]) for j in over]))
+    prev = case.get("prev_obs")
+    if prev is not None and prev.get("ok") and steps >= 1 and not spoiled and not hidden:
+        # one step earlier at least one column must still have been above its threshold
+        trp, attp = true_res(prev["x"])
+        if prev["steps"] == steps - 1 and all(bn[j] == 0 or trp[j] < tolc[j] * (1 - 1e-3) - attp[j] for j in range(nc)):
+            bad.append("took step %d although after %d steps every column was already below its threshold: residual/||b|| %s vs %s"
+                       % (steps, steps - 1, trp.tolist(), tolc.tolist()))
+        info["late_stop_checked"] = 1
     # Krylov optimality of the iterate after `steps` steps
     if case.get("check_opt", True) and steps >= 0:
         worst = 0.0
